@@ -1,8 +1,1221 @@
-//! placeholder: this component is not built yet
+//! C01 / C02 / C03 — correspondence of `trion::arm6m::asm::Instruction::{encode, decode}` with the Lean model
+//! `Trion.Codec` and the property oracles evaluated directly on the implementation.
+//!
+//! Bulk scheme: the same finite domains are enumerated on both sides in the same order; each side folds the
+//! canonical result of every element into a 64-bit digest (`mix`, word-wise FNV-1a); digests are compared per
+//! block and a mismatching block is re-run element by element through the single-request protocol
+//! (`codec enc …` / `codec dec …`) comparing canonical text, which yields the first differing inputs.
+//! Work is spread over up to 8 worker threads, each with its own model process.
+use std::collections::HashSet;
+use std::sync::atomic::{AtomicUsize, Ordering};
+use std::sync::Mutex;
+
+use trion::arm6m::asm::{DecodeError, EncodeError, ImmReg, Instruction};
+use trion::arm6m::cond::Condition;
+use trion::arm6m::reg::Register;
+use trion::arm6m::regset::RegisterSet;
+use trion::arm6m::sysreg::SystemReg;
+
 use crate::common::*;
+
+const NAMES: [&str; 58] = ["adc", "add", "adr", "and", "asr", "b", "bic", "bkpt", "bl", "blx", "bx", "cmn", "cmp",
+	"cps", "dmb", "dsb", "eor", "isb", "ldm", "ldr", "ldrb", "ldrh", "ldrsb", "ldrsh", "lsl", "lsr", "mov", "mrs",
+	"msr", "mul", "mvn", "nop", "orr", "pop", "push", "rev", "rev16", "revsh", "ror", "rsb", "sbc", "sev", "stm",
+	"str", "strb", "strh", "sub", "svc", "sxtb", "sxth", "tst", "udf", "udfw", "uxtb", "uxth", "wfe", "wfi", "yield"];
+/// slot kinds: R register, F flag, C condition, S system register, M register set, I integer, X ImmReg
+const KINDS: [&str; 58] = ["RR", "FRRX", "RI", "RR", "RRX", "CI", "RR", "I", "I", "R", "R", "RR", "RX",
+	"F", "", "", "RR", "", "RM", "RRX", "RRX", "RRX", "RRR", "RRR", "RRX", "RRX", "FRX", "RS",
+	"SR", "RR", "RR", "", "RR", "M", "M", "RR", "RR", "RR", "RR", "RR", "RR", "", "RM",
+	"RRX", "RRX", "RRX", "FRRX", "I", "RR", "RR", "RR", "I", "I", "RR", "RR", "", "", ""];
+const SYS: [i64; 11] = [0, 1, 2, 3, 5, 6, 7, 8, 9, 16, 20];
+/// variants whose encodings are 32 bits wide
+const WIDE_TAGS: [usize; 7] = [8, 14, 15, 17, 27, 28, 52];
+
+fn is_wide_tag(t: usize) -> bool {WIDE_TAGS.contains(&t)}
+
+// ---------------------------------------------------------------------------------------------------------
+// instruction <-> (tag, integer fields), the same numbering as Driver/Codec.lean
+
+fn r(x: Register) -> i64 {u8::from(x) as i64}
+
+fn ir(x: &ImmReg, f: &mut [i64; 6], at: usize) -> usize
+{
+	match x
+	{
+		ImmReg::Immediate(v) => {f[at] = 0; f[at + 1] = *v as i64;},
+		ImmReg::Register(x) => {f[at] = 1; f[at + 1] = r(*x);},
+	}
+	at + 2
+}
+
+fn fields_of(i: &Instruction, f: &mut [i64; 6]) -> (usize, usize)
+{
+	use Instruction::*;
+	macro_rules! rr {($t:expr, $a:expr, $b:expr) => {{f[0] = r(*$a); f[1] = r(*$b); ($t, 2)}}}
+	macro_rules! rrx {($t:expr, $a:expr, $b:expr, $x:expr) => {{f[0] = r(*$a); f[1] = r(*$b); ($t, ir($x, f, 2))}}}
+	match i
+	{
+		Adc{dst, rhs} => rr!(0, dst, rhs),
+		Add{flags, dst, lhs, rhs} => {f[0] = *flags as i64; f[1] = r(*dst); f[2] = r(*lhs); (1, ir(rhs, f, 3))},
+		Adr{dst, off} => {f[0] = r(*dst); f[1] = *off as i64; (2, 2)},
+		And{dst, rhs} => rr!(3, dst, rhs),
+		Asr{dst, value, shift} => rrx!(4, dst, value, shift),
+		B{cond, off} => {f[0] = u8::from(*cond) as i64; f[1] = *off as i64; (5, 2)},
+		Bic{dst, rhs} => rr!(6, dst, rhs),
+		Bkpt{info} => {f[0] = *info as i64; (7, 1)},
+		Bl{off} => {f[0] = *off as i64; (8, 1)},
+		Blx{off} => {f[0] = r(*off); (9, 1)},
+		Bx{off} => {f[0] = r(*off); (10, 1)},
+		Cmn{lhs, rhs} => rr!(11, lhs, rhs),
+		Cmp{lhs, rhs} => {f[0] = r(*lhs); (12, ir(rhs, f, 1))},
+		Cps{enable} => {f[0] = *enable as i64; (13, 1)},
+		Dmb => (14, 0),
+		Dsb => (15, 0),
+		Eor{dst, rhs} => rr!(16, dst, rhs),
+		Isb => (17, 0),
+		Ldm{addr, registers} => {f[0] = r(*addr); f[1] = registers.get_bits() as i64; (18, 2)},
+		Ldr{dst, addr, off} => rrx!(19, dst, addr, off),
+		Ldrb{dst, addr, off} => rrx!(20, dst, addr, off),
+		Ldrh{dst, addr, off} => rrx!(21, dst, addr, off),
+		Ldrsb{dst, addr, off} => {f[0] = r(*dst); f[1] = r(*addr); f[2] = r(*off); (22, 3)},
+		Ldrsh{dst, addr, off} => {f[0] = r(*dst); f[1] = r(*addr); f[2] = r(*off); (23, 3)},
+		Lsl{dst, value, shift} => rrx!(24, dst, value, shift),
+		Lsr{dst, value, shift} => rrx!(25, dst, value, shift),
+		Mov{flags, dst, src} => {f[0] = *flags as i64; f[1] = r(*dst); (26, ir(src, f, 2))},
+		Mrs{dst, src} => {f[0] = r(*dst); f[1] = u8::from(*src) as i64; (27, 2)},
+		Msr{dst, src} => {f[0] = u8::from(*dst) as i64; f[1] = r(*src); (28, 2)},
+		Mul{dst, rhs} => rr!(29, dst, rhs),
+		Mvn{dst, value} => rr!(30, dst, value),
+		Nop => (31, 0),
+		Orr{dst, rhs} => rr!(32, dst, rhs),
+		Pop{registers} => {f[0] = registers.get_bits() as i64; (33, 1)},
+		Push{registers} => {f[0] = registers.get_bits() as i64; (34, 1)},
+		Rev{dst, value} => rr!(35, dst, value),
+		Rev16{dst, value} => rr!(36, dst, value),
+		Revsh{dst, value} => rr!(37, dst, value),
+		Ror{dst, rhs} => rr!(38, dst, rhs),
+		Rsb{dst, lhs} => rr!(39, dst, lhs),
+		Sbc{dst, rhs} => rr!(40, dst, rhs),
+		Sev => (41, 0),
+		Stm{addr, registers} => {f[0] = r(*addr); f[1] = registers.get_bits() as i64; (42, 2)},
+		Str{src, addr, off} => rrx!(43, src, addr, off),
+		Strb{src, addr, off} => rrx!(44, src, addr, off),
+		Strh{src, addr, off} => rrx!(45, src, addr, off),
+		Sub{flags, dst, lhs, rhs} => {f[0] = *flags as i64; f[1] = r(*dst); f[2] = r(*lhs); (46, ir(rhs, f, 3))},
+		Svc{info} => {f[0] = *info as i64; (47, 1)},
+		Sxtb{dst, value} => rr!(48, dst, value),
+		Sxth{dst, value} => rr!(49, dst, value),
+		Tst{lhs, rhs} => rr!(50, lhs, rhs),
+		Udf{info} => {f[0] = *info as i64; (51, 1)},
+		Udfw{info} => {f[0] = *info as i64; (52, 1)},
+		Uxtb{dst, value} => rr!(53, dst, value),
+		Uxth{dst, value} => rr!(54, dst, value),
+		Wfe => (55, 0),
+		Wfi => (56, 0),
+		Yield => (57, 0),
+	}
+}
+
+fn reg(v: i64) -> Option<Register> {if (0..16).contains(&v) {Register::try_from(v as u8).ok()} else {None}}
+fn flag(v: i64) -> Option<bool> {match v {0 => Some(false), 1 => Some(true), _ => None}}
+fn cond(v: i64) -> Option<Condition> {if (0..15).contains(&v) {Condition::try_from(v as u8).ok()} else {None}}
+fn sysr(v: i64) -> Option<SystemReg> {if (0..256).contains(&v) {SystemReg::try_from(v as u8).ok()} else {None}}
+fn rset(v: i64) -> Option<RegisterSet> {if (0..65536).contains(&v) {Some(RegisterSet::of(v as u16))} else {None}}
+fn i32v(v: i64) -> Option<i32> {i32::try_from(v).ok()}
+fn immreg(k: i64, v: i64) -> Option<ImmReg>
+{
+	match k {0 => Some(ImmReg::Immediate(i32v(v)?)), 1 => Some(ImmReg::Register(reg(v)?)), _ => None}
+}
+
+/// `None` when a field is outside its Rust type (such a value cannot exist)
+fn of_fields(t: usize, f: &[i64]) -> Option<Instruction>
+{
+	use Instruction::*;
+	macro_rules! rr {($v:ident, $a:ident, $b:ident) => {match f {[a, b] => Some($v{$a: reg(*a)?, $b: reg(*b)?}), _ => None}}}
+	macro_rules! rrx {($v:ident, $a:ident, $b:ident, $x:ident) => {match f {[a, b, k, v] => Some($v{$a: reg(*a)?, $b: reg(*b)?, $x: immreg(*k, *v)?}), _ => None}}}
+	macro_rules! rrr {($v:ident, $a:ident, $b:ident, $c:ident) => {match f {[a, b, c] => Some($v{$a: reg(*a)?, $b: reg(*b)?, $c: reg(*c)?}), _ => None}}}
+	match t
+	{
+		0 => rr!(Adc, dst, rhs),
+		1 => match f {[fl, a, b, k, v] => Some(Add{flags: flag(*fl)?, dst: reg(*a)?, lhs: reg(*b)?, rhs: immreg(*k, *v)?}), _ => None},
+		2 => match f {[d, o] => Some(Adr{dst: reg(*d)?, off: u16::try_from(*o).ok()?}), _ => None},
+		3 => rr!(And, dst, rhs),
+		4 => rrx!(Asr, dst, value, shift),
+		5 => match f {[c, o] => Some(B{cond: cond(*c)?, off: i32v(*o)?}), _ => None},
+		6 => rr!(Bic, dst, rhs),
+		7 => match f {[i] => Some(Bkpt{info: u8::try_from(*i).ok()?}), _ => None},
+		8 => match f {[o] => Some(Bl{off: i32v(*o)?}), _ => None},
+		9 => match f {[x] => Some(Blx{off: reg(*x)?}), _ => None},
+		10 => match f {[x] => Some(Bx{off: reg(*x)?}), _ => None},
+		11 => rr!(Cmn, lhs, rhs),
+		12 => match f {[a, k, v] => Some(Cmp{lhs: reg(*a)?, rhs: immreg(*k, *v)?}), _ => None},
+		13 => match f {[e] => Some(Cps{enable: flag(*e)?}), _ => None},
+		14 => if f.is_empty() {Some(Dmb)} else {None},
+		15 => if f.is_empty() {Some(Dsb)} else {None},
+		16 => rr!(Eor, dst, rhs),
+		17 => if f.is_empty() {Some(Isb)} else {None},
+		18 => match f {[a, m] => Some(Ldm{addr: reg(*a)?, registers: rset(*m)?}), _ => None},
+		19 => rrx!(Ldr, dst, addr, off),
+		20 => rrx!(Ldrb, dst, addr, off),
+		21 => rrx!(Ldrh, dst, addr, off),
+		22 => rrr!(Ldrsb, dst, addr, off),
+		23 => rrr!(Ldrsh, dst, addr, off),
+		24 => rrx!(Lsl, dst, value, shift),
+		25 => rrx!(Lsr, dst, value, shift),
+		26 => match f {[fl, d, k, v] => Some(Mov{flags: flag(*fl)?, dst: reg(*d)?, src: immreg(*k, *v)?}), _ => None},
+		27 => match f {[d, s] => Some(Mrs{dst: reg(*d)?, src: sysr(*s)?}), _ => None},
+		28 => match f {[s, x] => Some(Msr{dst: sysr(*s)?, src: reg(*x)?}), _ => None},
+		29 => rr!(Mul, dst, rhs),
+		30 => rr!(Mvn, dst, value),
+		31 => if f.is_empty() {Some(Nop)} else {None},
+		32 => rr!(Orr, dst, rhs),
+		33 => match f {[m] => Some(Pop{registers: rset(*m)?}), _ => None},
+		34 => match f {[m] => Some(Push{registers: rset(*m)?}), _ => None},
+		35 => rr!(Rev, dst, value),
+		36 => rr!(Rev16, dst, value),
+		37 => rr!(Revsh, dst, value),
+		38 => rr!(Ror, dst, rhs),
+		39 => rr!(Rsb, dst, lhs),
+		40 => rr!(Sbc, dst, rhs),
+		41 => if f.is_empty() {Some(Sev)} else {None},
+		42 => match f {[a, m] => Some(Stm{addr: reg(*a)?, registers: rset(*m)?}), _ => None},
+		43 => rrx!(Str, src, addr, off),
+		44 => rrx!(Strb, src, addr, off),
+		45 => rrx!(Strh, src, addr, off),
+		46 => match f {[fl, a, b, k, v] => Some(Sub{flags: flag(*fl)?, dst: reg(*a)?, lhs: reg(*b)?, rhs: immreg(*k, *v)?}), _ => None},
+		47 => match f {[i] => Some(Svc{info: u8::try_from(*i).ok()?}), _ => None},
+		48 => rr!(Sxtb, dst, value),
+		49 => rr!(Sxth, dst, value),
+		50 => rr!(Tst, lhs, rhs),
+		51 => match f {[i] => Some(Udf{info: u8::try_from(*i).ok()?}), _ => None},
+		52 => match f {[i] => Some(Udfw{info: u16::try_from(*i).ok()?}), _ => None},
+		53 => rr!(Uxtb, dst, value),
+		54 => rr!(Uxth, dst, value),
+		55 => if f.is_empty() {Some(Wfe)} else {None},
+		56 => if f.is_empty() {Some(Wfi)} else {None},
+		57 => if f.is_empty() {Some(Yield)} else {None},
+		_ => None,
+	}
+}
+
+fn show_fields(t: usize, f: &[i64]) -> String
+{
+	let mut s = NAMES[t].to_owned();
+	for v in f {s.push(' '); s.push_str(&v.to_string());}
+	s
+}
+
+fn show_instr(i: &Instruction) -> String
+{
+	let mut f = [0i64; 6];
+	let (t, n) = fields_of(i, &mut f);
+	show_fields(t, &f[..n])
+}
+
+fn parse_instr(s: &str) -> Option<(usize, Vec<i64>, Instruction)>
+{
+	let mut w = s.split(' ').filter(|x| !x.is_empty());
+	let name = w.next()?;
+	let t = NAMES.iter().position(|n| *n == name)?;
+	let f: Option<Vec<i64>> = w.map(|x| x.parse::<i64>().ok()).collect();
+	let f = f?;
+	let i = of_fields(t, &f)?;
+	Some((t, f, i))
+}
+
+// ---------------------------------------------------------------------------------------------------------
+// the real code, guarded, with canonical results
+
+#[derive(Clone, Debug, PartialEq)]
+enum Enc {Ok(usize, [u8; 4]), Unrep, Overflow(usize, usize), Panic(String)}
+
+fn real_enc_into(i: &Instruction, cap: usize) -> Enc
+{
+	let i = *i;
+	match guarded(move || {let mut out = [0u8; 4]; let r = i.encode(&mut out[..cap]); (r, out)})
+	{
+		Ok((Ok(n), out)) => Enc::Ok(n, out),
+		Ok((Err(EncodeError::Unrepresentable), _)) => Enc::Unrep,
+		Ok((Err(EncodeError::Overflow{need, have}), _)) => Enc::Overflow(need, have),
+		Err(p) => Enc::Panic(p),
+	}
+}
+
+fn real_enc(i: &Instruction) -> Enc {real_enc_into(i, 4)}
+
+fn show_enc(e: &Enc) -> String
+{
+	match e
+	{
+		Enc::Ok(n, b) => format!("ok {}", hex(&b[..*n])),
+		Enc::Unrep => "err unrep".to_owned(),
+		Enc::Overflow(n, h) => format!("err overflow {n} {h}"),
+		Enc::Panic(p) => format!("PANIC: {p}"),
+	}
+}
+
+type Dec = Result<Result<(usize, Instruction), DecodeError>, String>;
+
+fn real_dec(b: &[u8]) -> Dec {guarded(|| Instruction::decode(b))}
+
+fn show_h1(h: &Option<u16>) -> String {match h {None => "-".to_owned(), Some(h) => format!("{h:04x}")}}
+
+fn show_dec(d: &Dec) -> String
+{
+	match d
+	{
+		Ok(Ok((n, i))) => format!("ok {n} {}", show_instr(i)),
+		Ok(Err(DecodeError::Underflow{need, have})) => format!("err underflow {need} {have}"),
+		Ok(Err(DecodeError::Undefined{instr0, instr1})) => format!("err undefined {instr0:04x} {}", show_h1(instr1)),
+		Ok(Err(DecodeError::Unpredictable{instr0, instr1})) => format!("err unpredictable {instr0:04x} {}", show_h1(instr1)),
+		Ok(Err(DecodeError::Reserved{instr0, instr1})) => format!("err reserved {instr0:04x} {}", show_h1(instr1)),
+		Err(p) => format!("PANIC: {p}"),
+	}
+}
+
+// ---------------------------------------------------------------------------------------------------------
+// digests, identical to Driver/Codec.lean
+
+const FNV0: u64 = 0xcbf29ce484222325;
+#[inline] fn mix(h: u64, x: u64) -> u64 {(h ^ x).wrapping_mul(0x100000001b3)}
+#[inline] fn mix_i(h: u64, v: i64) -> u64 {mix(h, v as u64)}
+
+fn mix_instr(h: u64, i: &Instruction) -> u64
+{
+	let mut f = [0i64; 6];
+	let (t, n) = fields_of(i, &mut f);
+	let mut h = mix(h, t as u64);
+	for v in &f[..n] {h = mix_i(h, *v);}
+	h
+}
+
+fn mix_h1(h: u64, x: &Option<u16>) -> u64 {match x {None => mix(h, 0), Some(x) => mix(h, *x as u64 + 1)}}
+
+fn mix_dec(h: u64, d: &Result<(usize, Instruction), DecodeError>) -> u64
+{
+	match d
+	{
+		Ok((n, i)) => mix_instr(mix(mix(h, 1), *n as u64), i),
+		Err(DecodeError::Underflow{need, have}) => mix(mix(mix(h, 2), *need as u64), *have as u64),
+		Err(DecodeError::Undefined{instr0, instr1}) => mix_h1(mix(mix(h, 3), *instr0 as u64), instr1),
+		Err(DecodeError::Unpredictable{instr0, instr1}) => mix_h1(mix(mix(h, 4), *instr0 as u64), instr1),
+		Err(DecodeError::Reserved{instr0, instr1}) => mix_h1(mix(mix(h, 5), *instr0 as u64), instr1),
+	}
+}
+
+fn mix_enc(h: u64, e: &Enc) -> u64
+{
+	match e
+	{
+		Enc::Ok(n, b) => {let mut h = mix(mix(h, 1), *n as u64); for x in &b[..*n] {h = mix(h, *x as u64);} h},
+		Enc::Unrep => mix(h, 2),
+		Enc::Overflow(n, k) => mix(mix(mix(h, 3), *n as u64), *k as u64),
+		Enc::Panic(_) => mix(h, 7),
+	}
+}
+
+// ---------------------------------------------------------------------------------------------------------
+// worker pool: each worker owns one model process
+
+fn workers() -> usize
+{
+	std::env::var("VERIF_CODEC_WORKERS").ok().and_then(|s| s.parse().ok()).unwrap_or(8).clamp(1, 8)
+}
+
+fn run_jobs<J: Sync, R: Send>(cx: &mut Cx, jobs: &[J], f: impl Fn(usize, &J, &mut Model) -> R + Sync) -> Vec<R>
+{
+	let n = workers().min(jobs.len().max(1));
+	let next = AtomicUsize::new(0);
+	let results: Mutex<Vec<Option<R>>> = Mutex::new((0..jobs.len()).map(|_| None).collect());
+	let requests = AtomicUsize::new(0);
+	std::thread::scope(|s|
+	{
+		for _ in 0..n
+		{
+			s.spawn(||
+			{
+				let mut model = Model::spawn();
+				loop
+				{
+					let k = next.fetch_add(1, Ordering::SeqCst);
+					if k >= jobs.len() {break;}
+					let r = f(k, &jobs[k], &mut model);
+					results.lock().unwrap()[k] = Some(r);
+				}
+				requests.fetch_add(model.requests as usize, Ordering::SeqCst);
+			});
+		}
+	});
+	cx.model.requests += requests.load(Ordering::SeqCst) as u64;
+	results.into_inner().unwrap().into_iter().map(|r| r.expect("job finished")).collect()
+}
+
+/// what one job found; merged into the report by the main thread
+#[derive(Default)]
+struct Found
+{
+	evaluations: u64,
+	hist: Vec<(String, u64)>,
+	keys: Vec<u64>,
+	samples: Vec<String>,
+	disagreements: Vec<(String, String, String, String)>,
+	disagreements_total: u64,
+	failures: Vec<(String, String)>,
+	failures_total: u64,
+}
+
+impl Found
+{
+	fn fail(&mut self, input: String, what: String)
+	{
+		self.failures_total += 1;
+		if self.failures.len() < 8 {self.failures.push((input, what));}
+	}
+	fn disagree(&mut self, comp: &str, input: String, model: String, imp: String)
+	{
+		self.disagreements_total += 1;
+		if self.disagreements.len() < 8 {self.disagreements.push((comp.to_owned(), input, model, imp));}
+	}
+	fn hit(&mut self, k: &str, n: u64)
+	{
+		if n == 0 {return;}
+		if let Some(e) = self.hist.iter_mut().find(|e| e.0 == k) {e.1 += n;} else {self.hist.push((k.to_owned(), n));}
+	}
+	fn merge_into(self, rep: &mut Report)
+	{
+		rep.cases(self.evaluations);
+		for (k, n) in self.hist {rep.hit_n(&k, n);}
+		for k in self.keys {rep.distinct_key(k);}
+		for s in self.samples {rep.sample(s);}
+		for (c, i, m, r) in self.disagreements {rep.disagree(&c, i, m, r);}
+		for (i, w) in self.failures {rep.oracle_fail(i, w);}
+	}
+}
+
+fn merge(cx: &mut Cx, found: Vec<Found>)
+{
+	for f in found
+	{
+		// totals beyond the kept examples
+		let extra_d = f.disagreements_total - f.disagreements.len() as u64;
+		let extra_f = f.failures_total - f.failures.len() as u64;
+		f.merge_into(&mut cx.report);
+		cx.report.disagreements_total += extra_d;
+		cx.report.oracle_failures_total += extra_f;
+	}
+}
+
+// ---------------------------------------------------------------------------------------------------------
+// the structured encoder domain
+
+#[derive(Clone, Debug)]
+enum Ranged {Range(i64, i64), RegAlt, Nothing}
+
+#[derive(Clone, Debug)]
+struct EncJob {tag: usize, rg: Ranged}
+
+impl EncJob
+{
+	fn request(&self) -> String
+	{
+		match self.rg
+		{
+			Ranged::Range(lo, hi) => format!("codec encdom {} {lo} {hi}", NAMES[self.tag]),
+			Ranged::RegAlt => format!("codec encdom {} r", NAMES[self.tag]),
+			Ranged::Nothing => format!("codec encdom {} -", NAMES[self.tag]),
+		}
+	}
+}
+
+/// slots left to right, last slot fastest — the same order as `enumSlots` in Driver/Codec.lean
+fn enum_slots(kinds: &[u8], rg: &Ranged, pre: &mut Vec<i64>, f: &mut dyn FnMut(&[i64]))
+{
+	let Some((&c, rest)) = kinds.split_first() else {f(pre); return;};
+	let mut each = |vals: &mut dyn Iterator<Item = i64>, pre: &mut Vec<i64>|
+	{
+		for v in vals {pre.push(v); enum_slots(rest, rg, pre, f); pre.pop();}
+	};
+	match c
+	{
+		b'R' => each(&mut (0..16), pre),
+		b'F' => each(&mut (0..2), pre),
+		b'C' => each(&mut (0..15), pre),
+		b'S' => each(&mut SYS.iter().copied(), pre),
+		_ => match rg
+		{
+			Ranged::Nothing => {},
+			Ranged::RegAlt => if c == b'X' {pre.push(1); each(&mut (0..16), pre); pre.pop();},
+			Ranged::Range(lo, hi) =>
+			{
+				if c == b'X' {pre.push(0); each(&mut (*lo..=*hi), pre); pre.pop();}
+				else {each(&mut (*lo..=*hi), pre);}
+			},
+		},
+	}
+}
+
+/// the ranged slot of every constructor: encodable interval widened by 3 on each side plus the extremes of
+/// the Rust field type (and 0, +-1, which all lie inside the widened intervals)
+fn enc_jobs(thorough: bool) -> Vec<EncJob>
+{
+	let i32x = [(i32::MIN as i64, i32::MIN as i64 + 1), (i32::MAX as i64 - 1, i32::MAX as i64)];
+	let mut jobs = Vec::new();
+	for t in 0..58
+	{
+		let k = KINDS[t];
+		let ranged = k.bytes().find(|c| matches!(c, b'I' | b'X' | b'M'));
+		let name = NAMES[t];
+		let mut push = |lo: i64, hi: i64, chunk: i64|
+		{
+			let mut a = lo;
+			while a <= hi {let b = (a + chunk - 1).min(hi); jobs.push(EncJob{tag: t, rg: Ranged::Range(a, b)}); a = b + 1;}
+		};
+		match ranged
+		{
+			None => jobs.push(EncJob{tag: t, rg: Ranged::Nothing}),
+			Some(b'M') => push(0, 65535, if k.len() > 1 {16384} else {65536}),
+			Some(b'X') =>
+			{
+				// union of the encodable intervals of all forms of the constructor
+				let hi = match name
+				{
+					"add" => 1020, "sub" => 508, "asr" | "lsr" => 32, "lsl" => 31, "cmp" | "mov" => 255,
+					"ldr" | "str" => 1020, "ldrb" | "strb" => 31, "ldrh" | "strh" => 62, _ => unreachable!(),
+				};
+				push(-3, hi + 3, 1 << 20);
+				for (a, b) in i32x {push(a, b, 4);}
+				jobs.push(EncJob{tag: t, rg: Ranged::RegAlt});
+			},
+			Some(_) => match name
+			{
+				"adr" => {push(0, 1023, 4096); push(65533, 65535, 4);},
+				"bkpt" | "svc" | "udf" => push(0, 255, 256),
+				"udfw" => push(0, 65535, 65536),
+				"b" => {push(-2051, 2050, 8192); for (a, b) in i32x {push(a, b, 4);}},
+				"bl" =>
+				{
+					let lim = 1i64 << 24;
+					if thorough {push(-lim - 3, lim + 2, 1 << 20);}
+					else {push(-lim - 3, -lim + 255, 512); push(-(1 << 13), 1 << 13, 1 << 20); push(lim - 256, lim + 2, 512);}
+					for (a, b) in i32x {push(a, b, 4);}
+				},
+				_ => unreachable!(),
+			},
+		}
+	}
+	jobs
+}
+
+/// 16-bit half of the specification table as served by the model (`codec spectab16`)
+struct SpecTab
+{
+	/// `Arm.decode [h]` as instruction text
+	by_hw: Vec<Option<String>>,
+	/// all instructions that have a 16-bit encoding
+	image: HashSet<String>,
+}
+
+fn load_spec_tab(model: &mut Model) -> SpecTab
+{
+	let mut by_hw = Vec::with_capacity(65536);
+	for blk in 0..16
+	{
+		let reply = model.ask(&format!("codec spectab16 {:x} {:x}", blk * 4096, blk * 4096 + 4095));
+		let parts: Vec<&str> = reply.split('|').collect();
+		assert_eq!(parts.len(), 4096, "spectab16 reply malformed: {}", &reply[..reply.len().min(80)]);
+		for p in parts {by_hw.push(if p == "-" {None} else {Some(p.to_owned())});}
+	}
+	let image = by_hw.iter().flatten().cloned().collect();
+	SpecTab{by_hw, image}
+}
+
+/// C02 oracle on one tuple: decode(encode(i)) == Ok((len, i)), also with trailing bytes
+fn c02_oracle(i: &Instruction, e: &Enc, text: &dyn Fn() -> String, found: &mut Found)
+{
+	let text = || text();
+	match e
+	{
+		Enc::Ok(n, b) =>
+		{
+			let d = real_dec(&b[..*n]);
+			if d != Ok(Ok((*n, *i)))
+			{
+				found.fail(format!("enc {}", text()), format!("encode gives {} but decoding those bytes gives `{}` instead of the original instruction with length {n}", hex(&b[..*n]), show_dec(&d)));
+			}
+			else if *n == 2
+			{
+				// decoding must not depend on what follows
+				let mut with_tail = [b[0], b[1], 0xFF, 0xFF];
+				let d = real_dec(&with_tail);
+				with_tail[2] = 0;
+				if d != Ok(Ok((2, *i))) || real_dec(&with_tail[..3]) != Ok(Ok((2, *i)))
+				{
+					found.fail(format!("enc {}", text()), format!("decoding {} followed by trailing bytes gives `{}`", hex(&b[..2]), show_dec(&d)));
+				}
+			}
+		},
+		Enc::Unrep => {},
+		other => found.fail(format!("enc {}", text()), format!("encode into a 4-byte buffer returned `{}`", show_enc(other))),
+	}
+}
+
+/// the wide accepted / rejected tuples of a block whose specification side must be asked from the model
+#[derive(Default)]
+struct SpecAsk {accepted: Vec<(String, [u8; 4])>, rejected: Vec<String>, stride_acc: u64, stride_rej: u64}
+
+/// C01 oracle on one tuple against the specification table
+fn c01_oracle(t: usize, e: &Enc, text: &str, spec: &SpecTab, ask: &mut SpecAsk, every: u64, found: &mut Found)
+{
+	match e
+	{
+		Enc::Ok(2, b) =>
+		{
+			let h = b[0] as usize | (b[1] as usize) << 8;
+			if spec.by_hw[h].as_deref() != Some(text)
+			{
+				found.fail(format!("enc {text}"), format!("emitted {} which the ARMv6-M table decodes as `{}`", hex(&b[..2]), spec.by_hw[h].as_deref().unwrap_or("no instruction (undefined/unpredictable)")));
+			}
+		},
+		Enc::Ok(4, b) =>
+		{
+			ask.stride_acc += 1;
+			if ask.stride_acc % every == 0 {ask.accepted.push((text.to_owned(), *b));}
+		},
+		Enc::Unrep =>
+		{
+			if spec.image.contains(text)
+			{
+				found.fail(format!("enc {text}"), "rejected as unrepresentable although the ARMv6-M table has a 16-bit encoding for exactly these operands".to_owned());
+			}
+			if is_wide_tag(t)
+			{
+				ask.stride_rej += 1;
+				if ask.stride_rej % every == 0 {ask.rejected.push(text.to_owned());}
+			}
+		},
+		other => found.fail(format!("enc {text}"), format!("encode into a 4-byte buffer returned `{}`", show_enc(other))),
+	}
+}
+
+fn c01_flush(ask: &mut SpecAsk, model: &mut Model, found: &mut Found)
+{
+	if !ask.accepted.is_empty()
+	{
+		let lines: Vec<String> = ask.accepted.iter().map(|(_, b)| format!("codec spec {}", hex(b))).collect();
+		let replies = model.ask_many(&lines);
+		for ((text, b), reply) in ask.accepted.iter().zip(replies)
+		{
+			if reply != format!("some {text}")
+			{
+				found.fail(format!("enc {text}"), format!("emitted {} which the ARMv6-M table decodes as `{reply}`", hex(b)));
+			}
+		}
+		found.hit("C01 wide encodings looked up in the table", ask.accepted.len() as u64);
+		ask.accepted.clear();
+	}
+	if !ask.rejected.is_empty()
+	{
+		let lines: Vec<String> = ask.rejected.iter().map(|t| format!("codec specenc {t}")).collect();
+		let replies = model.ask_many(&lines);
+		for (text, reply) in ask.rejected.iter().zip(replies)
+		{
+			if reply != "none"
+			{
+				found.fail(format!("enc {text}"), format!("rejected as unrepresentable although the ARMv6-M table encodes exactly these operands as {reply}"));
+			}
+		}
+		found.hit("C01 rejected wide tuples searched in the table", ask.rejected.len() as u64);
+		ask.rejected.clear();
+	}
+}
+
+fn enc_block(id: &str, job: &EncJob, model: &mut Model, spec: Option<&SpecTab>) -> Found
+{
+	let mut found = Found::default();
+	let kinds = KINDS[job.tag].as_bytes();
+	let model_reply = model.ask(&job.request());
+	let mut digest = FNV0;
+	let (mut n_ok, mut n_all) = (0u64, 0u64);
+	let mut ask = SpecAsk::default();
+	// number of tuples of the block, to bound the single-request traffic of the C01 oracle
+	let size: u64 = {let mut c = 0u64; enum_slots(kinds, &job.rg, &mut Vec::new(), &mut |_| c += 1); c};
+	let every = (size / 40_000).max(1);
+	let mut pre = Vec::new();
+	enum_slots(kinds, &job.rg, &mut pre, &mut |f|
+	{
+		n_all += 1;
+		let Some(i) = of_fields(job.tag, f) else {digest = mix(digest, 9); return;};
+		let e = real_enc(&i);
+		digest = mix_enc(digest, &e);
+		if let Enc::Ok(n, b) = &e
+		{
+			n_ok += 1;
+			if n_ok <= 1500 {found.keys.push(fnv(FNV_INIT, &b[..*n]));}
+		}
+		if id == "C01"
+		{
+			let text = show_fields(job.tag, f);
+			c01_oracle(job.tag, &e, &text, spec.unwrap(), &mut ask, every, &mut found);
+		}
+		else {c02_oracle(&i, &e, &|| show_fields(job.tag, f), &mut found);}
+	});
+	if id == "C01" {c01_flush(&mut ask, model, &mut found);}
+	found.evaluations = n_all;
+	found.hit(&format!("{} accepted", NAMES[job.tag]), n_ok);
+	found.hit(&format!("{} rejected", NAMES[job.tag]), n_all - n_ok);
+	let mine = format!("{digest:016x} {n_ok}");
+	if mine != model_reply
+	{
+		// element by element
+		let mut tuples: Vec<Vec<i64>> = Vec::new();
+		enum_slots(kinds, &job.rg, &mut Vec::new(), &mut |f| tuples.push(f.to_vec()));
+		let mut located = false;
+		for chunk in tuples.chunks(32768)
+		{
+			let lines: Vec<String> = chunk.iter().map(|f| format!("codec enc {}", show_fields(job.tag, f))).collect();
+			let replies = model.ask_many(&lines);
+			for (f, reply) in chunk.iter().zip(replies)
+			{
+				let imp = match of_fields(job.tag, f) {Some(i) => show_enc(&real_enc(&i)), None => "bad-op".to_owned()};
+				if imp != reply
+				{
+					located = true;
+					found.disagree("model.codec.encode", format!("enc {}", show_fields(job.tag, f)), reply, imp);
+				}
+			}
+			if found.disagreements_total >= 8 {break;}
+		}
+		if !located
+		{
+			found.disagree("model.codec.encode", job.request(), model_reply, mine + " (block digest differs, no single element differs: enumeration order or digest definition)");
+		}
+	}
+	found
+}
+
+fn single_enc(id: &str, cx: &mut Cx, input: &str)
+{
+	let Some((t, f, i)) = parse_instr(input) else {cx.report.oracle_fail(format!("enc {input}"), "unrecognised instruction text"); return;};
+	let text = show_fields(t, &f);
+	let e = real_enc(&i);
+	let imp = show_enc(&e);
+	let reply = cx.model.ask(&format!("codec enc {text}"));
+	cx.report.case(if matches!(e, Enc::Ok(..)) {Some(&imp)} else {None});
+	cx.report.compare("model.codec.encode", &format!("enc {text}"), &reply, &imp);
+	// overflow behaviour of the output buffer
+	for cap in 0..4
+	{
+		let imp = show_enc(&real_enc_into(&i, cap));
+		let reply = cx.model.ask(&format!("codec encinto {cap} {text}"));
+		cx.report.compare("model.codec.encodeInto", &format!("enc {text}"), &reply, &imp);
+	}
+	let mut found = Found::default();
+	if id == "C01"
+	{
+		match &e
+		{
+			Enc::Ok(n, b) =>
+			{
+				let reply = cx.model.ask(&format!("codec spec {}", hex(&b[..*n])));
+				if reply != format!("some {text}")
+				{
+					found.fail(format!("enc {text}"), format!("emitted {} which the ARMv6-M table decodes as `{reply}`", hex(&b[..*n])));
+				}
+			},
+			Enc::Unrep =>
+			{
+				let reply = cx.model.ask(&format!("codec specenc {text}"));
+				if reply != "none"
+				{
+					found.fail(format!("enc {text}"), format!("rejected as unrepresentable although the ARMv6-M table encodes exactly these operands as {reply}"));
+				}
+			},
+			other => found.fail(format!("enc {text}"), format!("encode into a 4-byte buffer returned `{}`", show_enc(other))),
+		}
+	}
+	else {c02_oracle(&i, &e, &|| text.clone(), &mut found);}
+	merge(cx, vec![found]);
+}
+
+// ---------------------------------------------------------------------------------------------------------
+// decoder domain
+
+fn rule_len(h0: u16) -> usize {if (h0 >> 11) >= 0b11101 {4} else {2}}
+
+/// C03 oracle on one byte string
+fn c03_oracle(b: &[u8], d: &Dec, found: &mut Found)
+{
+	let input = || format!("dec {}", hex(b));
+	let want = if b.len() < 2 {2} else {rule_len(u16::from_le_bytes([b[0], b[1]]))};
+	match d
+	{
+		Err(p) => found.fail(input(), format!("decode panicked: {p}")),
+		Ok(Ok((n, i))) =>
+		{
+			if *n != want || *n > b.len()
+			{
+				found.fail(input(), format!("consumed length {n}, the first halfword demands {want} and {} bytes were supplied", b.len()));
+				return;
+			}
+			match real_enc(i)
+			{
+				Enc::Ok(m, out) =>
+				{
+					if m != *n
+					{
+						found.fail(input(), format!("decoded `{}` re-encodes to {m} bytes ({}), not {n}", show_instr(i), hex(&out[..m])));
+					}
+					else
+					{
+						let d2 = real_dec(&out[..m]);
+						if d2 != Ok(Ok((*n, *i)))
+						{
+							found.fail(input(), format!("decoded `{}` re-encodes to {} which decodes to `{}`", show_instr(i), hex(&out[..m]), show_dec(&d2)));
+						}
+					}
+				},
+				other => found.fail(input(), format!("decoded `{}` cannot be re-encoded: `{}`", show_instr(i), show_enc(&other))),
+			}
+		},
+		Ok(Err(DecodeError::Underflow{need, have})) =>
+		{
+			if !(b.len() < want && *need == want && *have == b.len())
+			{
+				found.fail(input(), format!("underflow (need {need}, have {have}) reported for {} bytes whose first halfword demands {want}", b.len()));
+			}
+		},
+		Ok(Err(DecodeError::Undefined{instr0, instr1})) | Ok(Err(DecodeError::Unpredictable{instr0, instr1})) | Ok(Err(DecodeError::Reserved{instr0, instr1})) =>
+		{
+			let h0 = u16::from_le_bytes([b[0], b[1]]);
+			let h1 = if want == 4 && b.len() >= 4 {Some(u16::from_le_bytes([b[2], b[3]]))} else {None};
+			if b.len() < want || *instr0 != h0 || *instr1 != h1
+			{
+				found.fail(input(), format!("classified error `{}` does not name the supplied halfwords / was returned although bytes are missing", show_dec(d)));
+			}
+		},
+	}
+}
+
+fn kind_of(d: &Dec) -> &'static str
+{
+	match d
+	{
+		Ok(Ok(_)) => "dec ok", Ok(Err(DecodeError::Underflow{..})) => "dec underflow", Ok(Err(DecodeError::Undefined{..})) => "dec undefined",
+		Ok(Err(DecodeError::Unpredictable{..})) => "dec unpredictable", Ok(Err(DecodeError::Reserved{..})) => "dec reserved", Err(_) => "dec PANIC",
+	}
+}
+
+/// element-by-element comparison of a list of byte strings through `codec dec`
+fn dec_lines(model: &mut Model, inputs: &[Vec<u8>], oracle: bool, found: &mut Found)
+{
+	for chunk in inputs.chunks(32768)
+	{
+		let lines: Vec<String> = chunk.iter().map(|b| format!("codec dec {}", hex(b))).collect();
+		let replies = model.ask_many(&lines);
+		for (b, reply) in chunk.iter().zip(replies)
+		{
+			let d = real_dec(b);
+			let imp = show_dec(&d);
+			if imp != reply {found.disagree("model.codec.decode", format!("dec {}", hex(b)), reply, imp);}
+			if oracle
+			{
+				found.evaluations += 1;
+				found.hit(kind_of(&d), 1);
+				c03_oracle(b, &d, found);
+			}
+		}
+	}
+}
+
+#[derive(Clone, Copy)]
+struct DecJob {lo: u32, hi: u32, wide: bool}
+
+/// one block of first halfwords: digest on the real code + C03 oracle, compared with `dec16` / `dec32`
+fn dec_block(job: &DecJob, model: &mut Model) -> Found
+{
+	let mut found = Found::default();
+	let request = if job.wide {format!("codec dec32 {:x} {:x}", job.lo, job.hi)} else {format!("codec dec16 {:x} {:x}", job.lo, job.hi)};
+	let reply = model.ask(&request);
+	let mut digest = FNV0;
+	let mut n_ok = 0u64;
+	let mut counts = [0u64; 6];
+	let mut per_h0: Vec<u64> = Vec::new();
+	for h0 in job.lo..=job.hi
+	{
+		let h0b = (h0 as u16).to_le_bytes();
+		let start = digest;
+		// a whole row under one guard; redone element by element only if something panicked
+		let row = guarded(||
+		{
+			let mut dg = start;
+			let mut ok = 0u64;
+			let mut cnt = [0u64; 6];
+			let mut fails = Found::default();
+			let mut keys = Vec::new();
+			let inner = if job.wide {65536u32} else {1};
+			for h1 in 0..inner
+			{
+				let h1b = (h1 as u16).to_le_bytes();
+				let bytes = [h0b[0], h0b[1], h1b[0], h1b[1]];
+				let b = if job.wide {&bytes[..]} else {&bytes[..2]};
+				let d = Instruction::decode(b);
+				dg = mix_dec(dg, &d);
+				let dd: Dec = Ok(d);
+				cnt[match &dd {Ok(Ok(_)) => 0, Ok(Err(DecodeError::Underflow{..})) => 1, Ok(Err(DecodeError::Undefined{..})) => 2,
+					Ok(Err(DecodeError::Unpredictable{..})) => 3, Ok(Err(DecodeError::Reserved{..})) => 4, Err(_) => 5}] += 1;
+				if let Ok(Ok((_, i))) = &dd
+				{
+					ok += 1;
+					if ok <= 24 {keys.push(mix_instr(FNV0, i));}
+				}
+				c03_oracle(b, &dd, &mut fails);
+			}
+			(dg, ok, cnt, fails, keys)
+		});
+		match row
+		{
+			Ok((dg, ok, cnt, fails, keys)) =>
+			{
+				digest = dg;
+				n_ok += ok;
+				for k in 0..6 {counts[k] += cnt[k];}
+				found.keys.extend(keys);
+				found.failures_total += fails.failures_total;
+				for f in fails.failures {if found.failures.len() < 8 {found.failures.push(f);}}
+			},
+			Err(_) =>
+			{
+				let inner = if job.wide {65536u32} else {1};
+				for h1 in 0..inner
+				{
+					let h1b = (h1 as u16).to_le_bytes();
+					let bytes = [h0b[0], h0b[1], h1b[0], h1b[1]];
+					let b = if job.wide {&bytes[..]} else {&bytes[..2]};
+					let d = real_dec(b);
+					match &d {Ok(r) => digest = mix_dec(digest, r), Err(_) => digest = mix(digest, 6)}
+					if matches!(d, Ok(Ok(_))) {n_ok += 1;}
+					c03_oracle(b, &d, &mut found);
+				}
+			},
+		}
+		per_h0.push(digest);
+		found.evaluations += if job.wide {65536} else {1};
+	}
+	for (k, name) in ["dec ok", "dec underflow", "dec undefined", "dec unpredictable", "dec reserved", "dec PANIC"].iter().enumerate() {found.hit(name, counts[k]);}
+	let mine = format!("{digest:016x} {n_ok}");
+	if mine != reply
+	{
+		// locate: all elements of the block through single requests (16-bit) / first differing row (32-bit)
+		let before = found.disagreements_total;
+		if !job.wide
+		{
+			let inputs: Vec<Vec<u8>> = (job.lo..=job.hi).map(|h| (h as u16).to_le_bytes().to_vec()).collect();
+			dec_lines(model, &inputs, false, &mut found);
+		}
+		else
+		{
+			for h0 in job.lo..=job.hi
+			{
+				// per-row digests: ask the model row by row and compare with a fresh real digest of that row
+				let r = model.ask(&format!("codec dec32 {h0:x} {h0:x}"));
+				let mut dg = FNV0;
+				let mut ok = 0;
+				for h1 in 0..65536u32
+				{
+					let b = [(h0 & 255) as u8, (h0 >> 8) as u8, (h1 & 255) as u8, (h1 >> 8) as u8];
+					match real_dec(&b) {Ok(d) => {if d.is_ok() {ok += 1;} dg = mix_dec(dg, &d)}, Err(_) => dg = mix(dg, 6)}
+				}
+				if r != format!("{dg:016x} {ok}")
+				{
+					let inputs: Vec<Vec<u8>> = (0..65536u32).map(|h1| vec![(h0 & 255) as u8, (h0 >> 8) as u8, (h1 & 255) as u8, (h1 >> 8) as u8]).collect();
+					dec_lines(model, &inputs, false, &mut found);
+					if found.disagreements_total > before {break;}
+				}
+			}
+		}
+		if found.disagreements_total == before
+		{
+			found.disagree("model.codec.decode", request, reply, mine + " (block digest differs, no single element differs)");
+		}
+	}
+	found
+}
+
+fn single_dec(cx: &mut Cx, input: &str)
+{
+	let Some(b) = unhex(input) else {cx.report.oracle_fail(format!("dec {input}"), "unrecognised hex bytes"); return;};
+	let mut found = Found::default();
+	dec_lines(&mut cx.model, &[b], true, &mut found);
+	merge(cx, vec![found]);
+}
+
+// ---------------------------------------------------------------------------------------------------------
+// C01: specification versus the implementation over all bit patterns
+
+/// `Arm.decode [h0, h1]` versus the real decoder for a block of first halfwords; and every instruction the
+/// table yields must be accepted by the real encoder with bytes the table maps back to it (enc_complete)
+fn spec32_block(job: &DecJob, model: &mut Model) -> Found
+{
+	let mut found = Found::default();
+	let request = format!("codec spec32 {:x} {:x}", job.lo, job.hi);
+	let reply = model.ask(&request);
+	let mut digest = FNV0;
+	let mut n_some = 0u64;
+	for h0 in job.lo..=job.hi
+	{
+		for h1 in 0..65536u32
+		{
+			let b = [(h0 & 255) as u8, (h0 >> 8) as u8, (h1 & 255) as u8, (h1 >> 8) as u8];
+			match real_dec(&b)
+			{
+				Ok(Ok((_, i))) =>
+				{
+					n_some += 1;
+					digest = mix_instr(mix(digest, 1), &i);
+					if !matches!(real_enc(&i), Enc::Ok(4, _))
+					{
+						found.fail(format!("enc {}", show_instr(&i)), format!("the pattern {} is an encoding of exactly these operands but the encoder does not emit a 4-byte encoding for them", hex(&b)));
+					}
+				},
+				_ => digest = mix(digest, 0),
+			}
+		}
+		found.evaluations += 65536;
+	}
+	found.hit("C01 32-bit patterns: table vs decoder", (job.hi - job.lo + 1) as u64 * 65536);
+	let mine = format!("{digest:016x} {n_some}");
+	if mine != reply
+	{
+		// locate through single requests
+		'outer: for h0 in job.lo..=job.hi
+		{
+			let inputs: Vec<[u8; 4]> = (0..65536u32).map(|h1| [(h0 & 255) as u8, (h0 >> 8) as u8, (h1 & 255) as u8, (h1 >> 8) as u8]).collect();
+			let lines: Vec<String> = inputs.iter().map(|b| format!("codec spec {}", hex(b))).collect();
+			let replies = model.ask_many(&lines);
+			for (b, r) in inputs.iter().zip(replies)
+			{
+				let imp = match real_dec(b) {Ok(Ok((_, i))) => format!("some {}", show_instr(&i)), _ => "none".to_owned()};
+				if imp != r
+				{
+					found.fail(format!("spec {}", hex(b)), format!("the ARMv6-M table reads these bytes as `{r}`, the implementation's decoder as `{imp}`"));
+					if found.failures_total >= 8 {break 'outer;}
+				}
+			}
+		}
+		if found.failures_total == 0
+		{
+			found.disagree("model.codec.spec32", request, reply, mine + " (block digest differs, no single element differs)");
+		}
+	}
+	found
+}
+
+fn single_spec(cx: &mut Cx, input: &str)
+{
+	let Some(b) = unhex(input) else {cx.report.oracle_fail(format!("spec {input}"), "unrecognised hex bytes"); return;};
+	let r = cx.model.ask(&format!("codec spec {}", hex(&b)));
+	let d = real_dec(&b);
+	let imp = match &d {Ok(Ok((n, i))) if *n == b.len() => format!("some {}", show_instr(i)), _ => "none".to_owned()};
+	cx.report.case(Some(&imp));
+	if imp != r
+	{
+		cx.report.oracle_fail(format!("spec {}", hex(&b)), format!("the ARMv6-M table reads these bytes as `{r}`, the implementation's decoder as `{imp}`"));
+	}
+	if let Some(text) = r.strip_prefix("some ")
+	{
+		if let Some((_, _, i)) = parse_instr(text)
+		{
+			let e = real_enc(&i);
+			let ok = match &e {Enc::Ok(n, out) => cx.model.ask(&format!("codec spec {}", hex(&out[..*n]))) == r, _ => false};
+			if !ok
+			{
+				cx.report.oracle_fail(format!("enc {text}"), format!("{} is an ARMv6-M encoding of exactly these operands but the encoder answers `{}`", hex(&b), show_enc(&e)));
+			}
+		}
+	}
+}
+
+// ---------------------------------------------------------------------------------------------------------
 
 pub fn run(id: &str, cx: &mut Cx)
 {
-	cx.report.notes.push(format!("component for {id} not implemented"));
-	cx.report.oracle_fail("-", "harness component not implemented");
+	if let Some(input) = cx.replay.clone()
+	{
+		match input.split_once(' ')
+		{
+			Some(("enc", rest)) => single_enc(id, cx, rest),
+			Some(("dec", rest)) => single_dec(cx, rest),
+			Some(("spec", rest)) => single_spec(cx, rest),
+			_ => cx.report.oracle_fail(input.clone(), "unrecognised replay input (expected `enc <instr>`, `dec <hex>` or `spec <hex>`)"),
+		}
+		return;
+	}
+	match id
+	{
+		"C03" => run_c03(cx),
+		_ => run_enc(id, cx),
+	}
+}
+
+fn run_enc(id: &str, cx: &mut Cx)
+{
+	let thorough = cx.thorough();
+	cx.report.rule = format!("every constructor x every register 0..15 in every register slot x both flags x 15 conditions x 11 system registers x \
+all 2^16 register sets x every immediate in [lo-3, hi+3] of the union of the encodable intervals plus i32::MIN, MIN+1, MAX-1, MAX (u16/u8 fields: whole type or \
+interval plus the type maximum); B: all offsets -2051..2050 for all 15 conditions; BL: {}. Enumerated completely on the real encoder and by the model \
+(block digests); non-trivial = accepted by the encoder, distinct = distinct emitted byte strings (first 1500 per block). {}",
+		if thorough {"all offsets -2^24-3 .. 2^24+2"} else {"|off| <= 2^13 and the 256 offsets nearest each limit"},
+		if id == "C01" {"Oracle: the ARMv6-M table (Lean spec, served by the model) decodes the emitted bytes to exactly the tuple; every rejected tuple has no encoding in the table; every pattern the table defines is accepted (16-bit: all; 32-bit: all patterns in the thorough tier, all non-BL first halfwords and every 16th BL first halfword in the quick tier)."}
+		else {"Oracle: decode(encode(i)) == Ok((len, i)) on the real functions for every accepted tuple, also with trailing bytes."});
+
+	let spec = if id == "C01" {Some(load_spec_tab(&mut cx.model))} else {None};
+	let jobs = enc_jobs(thorough);
+	let spec_ref = spec.as_ref();
+	let found = run_jobs(cx, &jobs, |_, job, model| enc_block(id, job, model, spec_ref));
+	merge(cx, found);
+	cx.report.exhaustive = true;
+
+	// a few single requests: samples, and the output-buffer overflow behaviour
+	for text in ["adc 0 1", "add 0 8 8 1 0", "add 0 13 13 0 508", "bl -4", "b 14 -2048", "msr 16 3", "udfw 4660", "pop 32769", "cps 1", "ldm 0 0", "adc 8 0", "cmp 15 1 0"]
+	{
+		let (_, _, i) = parse_instr(text).unwrap();
+		cx.report.sample(format!("enc {text} -> {}", show_enc(&real_enc(&i))));
+		single_enc(id, cx, text);
+	}
+
+	if let Some(spec) = &spec
+	{
+		// 16-bit: table versus the implementation on every halfword
+		let mut found = Found::default();
+		for h in 0..65536u32
+		{
+			let b = (h as u16).to_le_bytes();
+			found.evaluations += 1;
+			if rule_len(h as u16) == 4
+			{
+				if spec.by_hw[h as usize].is_some() {found.fail(format!("spec {}", hex(&b)), "table defines a 16-bit instruction in the 32-bit space".to_owned());}
+				continue;
+			}
+			match &spec.by_hw[h as usize]
+			{
+				Some(text) =>
+				{
+					// enc_complete on the implementation: the operands the table reads off are accepted and map back
+					match parse_instr(text)
+					{
+						Some((_, _, i)) => match real_enc(&i)
+						{
+							Enc::Ok(2, out) =>
+							{
+								let h2 = out[0] as usize | (out[1] as usize) << 8;
+								if spec.by_hw[h2].as_deref() != Some(text.as_str())
+								{
+									found.fail(format!("enc {text}"), format!("emitted {} which the ARMv6-M table decodes as `{}`", hex(&out[..2]), spec.by_hw[h2].as_deref().unwrap_or("no instruction")));
+								}
+							},
+							other => found.fail(format!("enc {text}"), format!("{} is an ARMv6-M encoding of exactly these operands but the encoder answers `{}`", hex(&b), show_enc(&other))),
+						},
+						None => found.fail(format!("spec {}", hex(&b)), format!("table yields `{text}` which is not a value of the Rust types")),
+					}
+				},
+				None => {},
+			}
+			// and the decoder reads the pattern as the table does (alias check, reported under C01)
+			let imp = match real_dec(&b) {Ok(Ok((_, i))) => Some(show_instr(&i)), _ => None};
+			if imp != spec.by_hw[h as usize]
+			{
+				found.fail(format!("spec {}", hex(&b)), format!("the ARMv6-M table reads these bytes as `{}`, the implementation's decoder as `{}`",
+					spec.by_hw[h as usize].as_deref().unwrap_or("none"), imp.as_deref().unwrap_or("none")));
+			}
+		}
+		found.hit("C01 16-bit patterns: table vs encoder/decoder", 65536);
+		merge(cx, vec![found]);
+
+		// 32-bit: table versus the implementation
+		let mut jobs = Vec::new();
+		for h0 in (0xE800u32..0x10000).step_by(16)
+		{
+			let bl = (0xF000..0xF800).contains(&h0);
+			if thorough || !bl {jobs.push(DecJob{lo: h0, hi: h0 + 15, wide: true});}
+			else
+			{
+				// quick tier: one first halfword out of 16 in the BL space, position chosen from the seed
+				let pick = h0 + cx.rng.below(16) as u32;
+				jobs.push(DecJob{lo: pick, hi: pick, wide: true});
+			}
+		}
+		let found = run_jobs(cx, &jobs, |_, job, model| spec32_block(job, model));
+		merge(cx, found);
+		cx.report.sample(format!("spec 62b6 -> {}", cx.model.ask("codec spec 62b6")));
+	}
+}
+
+fn run_c03(cx: &mut Cx)
+{
+	cx.report.rule = "all 2^16 halfwords; all 6144 x 65536 pairs with first halfword 0xE800..0xFFFF (block digests on both sides, C03 oracle on every pattern); \
+every truncation to 0..3 bytes of every first halfword (third byte 00, ff and one seeded value); every 16-bit pattern and 200000 seeded 32-bit patterns followed by \
+1..3 trailing bytes. Oracle on the implementation: no panic; consumed length 4 iff top five bits of the first halfword are 11101/11110/11111; underflow only when \
+fewer bytes than that were supplied; classified errors name the supplied halfwords; every decoded instruction re-encodes to the same length and re-decodes to itself. \
+non-trivial = decodes to an instruction; distinct = distinct decoded instructions (first 24 per first halfword).".to_owned();
+
+	// 16-bit and 32-bit exhaustive
+	let mut jobs = Vec::new();
+	for lo in (0..0x10000u32).step_by(4096) {jobs.push(DecJob{lo, hi: lo + 4095, wide: false});}
+	for lo in (0xE800u32..0x10000).step_by(8) {jobs.push(DecJob{lo, hi: lo + 7, wide: true});}
+	let found = run_jobs(cx, &jobs, |_, job, model| dec_block(job, model));
+	merge(cx, found);
+	cx.report.exhaustive = true;
+
+	// truncations and trailing bytes, element by element
+	let mut inputs: Vec<Vec<u8>> = vec![Vec::new()];
+	for b0 in 0..256u32 {inputs.push(vec![b0 as u8]);}
+	for h0 in 0..65536u32
+	{
+		let b = (h0 as u16).to_le_bytes();
+		let x = cx.rng.next() as u8;
+		inputs.push(vec![b[0], b[1]]);
+		for b2 in [0u8, 0xFF, x] {inputs.push(vec![b[0], b[1], b2]);}
+		if rule_len(h0 as u16) == 2
+		{
+			let t = cx.rng.next();
+			inputs.push(vec![b[0], b[1], t as u8, (t >> 8) as u8]);
+			inputs.push(vec![b[0], b[1], (t >> 16) as u8, (t >> 24) as u8, (t >> 32) as u8]);
+		}
+	}
+	for _ in 0..200_000
+	{
+		let h0 = 0xE800 + cx.rng.below(0x1800) as u16;
+		// bias towards the populated second halfwords
+		let h1 = match cx.rng.below(4) {0 => 0x8000 | cx.rng.next() as u16, 1 => 0xD000 | cx.rng.next() as u16, _ => cx.rng.next() as u16};
+		let h0 = if cx.rng.chance(1, 2) {0xF000 | (h0 & 0x7FF)} else {h0};
+		let mut b = vec![h0 as u8, (h0 >> 8) as u8, h1 as u8, (h1 >> 8) as u8];
+		for _ in 0..1 + cx.rng.below(3) {b.push(cx.rng.next() as u8);}
+		inputs.push(b);
+	}
+	cx.report.hit_n("truncated / trailing-byte inputs", inputs.len() as u64);
+	let chunks: Vec<&[Vec<u8>]> = inputs.chunks(65536).collect();
+	let found = run_jobs(cx, &chunks, |_, chunk, model|
+	{
+		let mut found = Found::default();
+		dec_lines(model, chunk, true, &mut found);
+		// a trailing byte never changes the result
+		for b in chunk.iter()
+		{
+			if b.len() >= 2
+			{
+				let want = rule_len(u16::from_le_bytes([b[0], b[1]]));
+				if b.len() > want && real_dec(b) != real_dec(&b[..want])
+				{
+					found.fail(format!("dec {}", hex(b)), format!("result differs from decoding the first {want} bytes alone"));
+				}
+			}
+		}
+		found
+	});
+	merge(cx, found);
+	for text in ["0844", "fff7feff", "72b6", "00f0", "80f30088", "ffde"]
+	{
+		let b = unhex(text).unwrap();
+		cx.report.sample(format!("dec {text} -> {}", show_dec(&real_dec(&b))));
+	}
 }
